@@ -153,10 +153,28 @@ def features(*nodes):
     # one dominant mechanism per witness, by priority (see DESIGN §4 C19)
     if 'shallow-CallableEllipsis' in f:
         f.add('shallow-Callable')
+    # a union that has a member of the dominant kind (or a TypeVar bounded by a union) is part of the mechanism of the
+    # known branch-by-branch findings: keep it in the key, so that a defect in the plain comparison of the same kind of
+    # hint is not filed under them
+    in_union = set()
+    for nd in nodes:
+        for x in nd.walk():
+            if isinstance(x, hints.UnionH):
+                for m in x.members:
+                    if isinstance(m, AnnotatedH):
+                        in_union.add('annotated')
+                    elif isinstance(m, LiteralH):
+                        in_union.add('literal')
+                    elif isinstance(m, hints.NamedH) and m.kind.split(':')[0] == 'typevar':
+                        in_union.add('typevar')
+            elif isinstance(x, AnnotatedH) and any(isinstance(y, hints.UnionH) for y in x.walk()):
+                in_union.add('annotated')
+            elif isinstance(x, hints.NamedH) and x.kind.split(':')[0] == 'typevar' and isinstance(x.under, hints.UnionH):
+                in_union.add('typevar')
     for p in ('abc-subclasshook', 'shallow-Callable', 'typevar', 'newtype', 'annotated', 'literal', 'generic',
               'protocol', 'pep695', 'type'):
         if p in f:
-            return [p]
+            return [p + ('-with-union' if p in in_union else '')]
     return sorted(f)[:1] or ['plain']
 
 
@@ -185,7 +203,7 @@ def main():
             W.count('is_subhint_raised_other')     # exception hygiene is C11's
             return None
 
-    for idx in W.cases('pool', limit):
+    for idx in W.cases('pool', limit, frac=.9):        # (the homonym stream below gets the rest)
         rng = W.rng('pool', idx)
         try:
             seed = hints.safe_gen_hint(rng, rng.choice((1, 2, 2, 3)), allow_any=False)
@@ -415,6 +433,60 @@ def main():
         if len(W.samples) < 3:
             W.sample(dict(pool=[p.src for p in pool[:8]], related_pairs=related))
 
+    # ---- homonyms: distinct hints that print alike ---------------------------------------------------------
+    # (same-named TypeVars with different bounds, same-named NewTypes over different bases, typing generics over
+    # same-named classes of a class factory): the relation must follow the meaning, not the spelling, whatever the order
+    # in which the hints were first seen.  Reference meaning = a predicate per hint; objects from a fixed zoo.
+    import typing as _t
+    for idx in W.cases('homonym', 400 if quick else 4000):
+        rng = W.rng('homonym', idx)
+        R1, R2 = type('Rec', (), {}), type('Rec', (), {})
+        TVI, TVS = _t.TypeVar('T', bound=int), _t.TypeVar('T', bound=str)
+        NTI, NTS = _t.NewType('N', int), _t.NewType('N', str)
+        inst = lambda c: (lambda x: isinstance(x, c))                          # noqa: E731
+        lst = lambda c: (lambda x: isinstance(x, list) and all(isinstance(i, c) for i in x))   # noqa: E731
+        zoo = [0, 1, True, 'a', '', R1(), R2(), [0], ['a'], [R1()], [R2()], [], None, 1.5]
+        model = [('TVI', TVI, inst(int)), ('TVS', TVS, inst(str)), ('NTI', NTI, inst(int)), ('NTS', NTS, inst(str)),
+                 ('List[R1]', _t.List[R1], lst(R1)), ('List[R2]', _t.List[R2], lst(R2)), ('List[TVI]', _t.List[TVI], lst(int)),
+                 ('List[TVS]', _t.List[TVS], lst(str)), ('Optional[R1]', _t.Optional[R1], lambda x: x is None or isinstance(x, R1)),
+                 ('Optional[R2]', _t.Optional[R2], lambda x: x is None or isinstance(x, R2)), ('R1', R1, inst(R1)), ('R2', R2, inst(R2)),
+                 ('int', int, inst(int)), ('str', str, inst(str)), ('bool', bool, inst(bool)), ('object', object, inst(object)),
+                 ('List[int]', _t.List[int], lst(int)), ('List[str]', _t.List[str], lst(str))]
+        rng.shuffle(model)                  # the order of first sight varies
+        model = model[:rng.choice((6, 10, len(model)))]
+        W.count('homonym_pools')
+        W.evaluate(('homonym', tuple(n for n, _, _ in model)))
+        rels = {}
+        for na, ha, pa in model:
+            for nb, hb, pb in model:
+                try:
+                    rels[na, nb] = bool(is_subhint(ha, hb))
+                except Exception:
+                    rels[na, nb] = None
+                W.count('homonym_is_subhint_calls')
+        bad = None
+        for na, ha, pa in model:
+            if rels[na, na] is False:
+                bad = ('homonym:not-reflexive', f'is_subhint({na}, {na}) is False')
+            try:
+                if TypeHint(ha).hint != ha:        # (an equal hint seen earlier may legitimately share the wrapper)
+                    bad = ('homonym:wrapper-of-another-hint', f'TypeHint({na}).hint is {TypeHint(ha).hint!r}, an unequal hint that prints alike')
+            except Exception:
+                pass
+            for nb, hb, pb in model:
+                if rels[na, nb]:
+                    for x in zoo:
+                        if pa(x) and not pb(x) and is_bearable(x, ha) is True and is_bearable(x, hb) is False:
+                            bad = bad or ('homonym:unsound', f'is_subhint({na}, {nb}) is True, yet {x!r} satisfies {na} and not {nb} '
+                                                             f'(reference predicate and is_bearable agree); first sight order: '
+                                                             f'{[n for n, _, _ in model]}')
+                    for nc, hc, pc in model:
+                        if rels[nb, nc] and rels[na, nc] is False:
+                            bad = bad or ('homonym:not-transitive', f'{na} <= {nb} <= {nc} but not {na} <= {nc}')
+        if bad:
+            W.violation(bad[0], bad[1], 'homonym', idx, dict(order=[n for n, _, _ in model]))
+
+    W.need('homonym_pools', 20)
     W.need('pools', 100)
     W.need('is_subhint_calls', 10000)
     W.need('related_pairs', 1000)
